@@ -177,7 +177,17 @@ static bool c14DoAct(const char* act, C14Obj* newc)
   if(!strcmp(op, "rmt")) { if(C14Obj* o = c14Live((int)a, C14_TIMER)) { c14Srv->remove(*(Server::Timer*)o->ptr); o->alive = false; } return false; }
   if(!strcmp(op, "rmc")) { if(C14Obj* o = c14Live((int)a, C14_CLIENT)) { c14Srv->remove(*(Server::Client*)o->ptr); o->alive = false; } return false; }
   if(!strcmp(op, "rml")) { if(C14Obj* o = c14Live((int)a, C14_LISTENER)) { c14Srv->remove(*(Server::Listener*)o->ptr); o->alive = false; } return false; }
-  if(!strcmp(op, "rme")) { if(C14Obj* o = c14Live((int)a, C14_EST)) { c14Srv->remove(*(Server::Establisher*)o->ptr); o->alive = false; } return false; }
+  if(!strcmp(op, "rme"))
+  {
+    if(C14Obj* o = c14Live((int)a, C14_EST))
+    {
+      for(int i = 0; i < ipNFailConnect; ++i)
+        if(ipFailConnectFd[i] == o->fd) { ipFailConnectFd[i] = ipFailConnectFd[--ipNFailConnect]; break; }
+      c14Srv->remove(*(Server::Establisher*)o->ptr);
+      o->alive = false;
+    }
+    return false;
+  }
   if(!strcmp(op, "sus")) { if(C14Obj* o = c14Live((int)a, C14_CLIENT)) ((Server::Client*)o->ptr)->suspend(); return false; }
   if(!strcmp(op, "res")) { if(C14Obj* o = c14Live((int)a, C14_CLIENT)) ((Server::Client*)o->ptr)->resume(); return false; }
   if(!strcmp(op, "rd"))
@@ -296,6 +306,7 @@ static void c14Teardown()
   memset(c14Used, 0, sizeof(c14Used));
   c14NextAuto = 1000;
   c14LogLen = 0;
+  ipNFailConnect = 0;
   if(c14RawListenFd >= 0) close(c14RawListenFd);
   c14RawListenFd = -1;
 }
@@ -358,7 +369,7 @@ static bool c14Op(HxLine& l)
   const char* op = l.tok[0];
   bool known = !strcmp(op, "script") || !strcmp(op, "act") || !strcmp(op, "mkpair") || !strcmp(op, "mklisten") ||
                !strcmp(op, "mkconn") || !strcmp(op, "psend") || !strcmp(op, "pclose") || !strcmp(op, "dial") ||
-               !strcmp(op, "adv") || !strcmp(op, "run");
+               !strcmp(op, "adv") || !strcmp(op, "run") || !strcmp(op, "cfail");
   if(!known) return false;
   if(!c14Srv) c14Setup();
   long a = 0, b = 0;
@@ -379,10 +390,20 @@ static bool c14Op(HxLine& l)
     c14Observe("ok");
     return true;
   }
-  if(hxIs(l, "mkpair", 1) || hxIs(l, "mklisten", 1) || hxIs(l, "mkconn", 1) || hxIs(l, "pclose", 1) || hxIs(l, "dial", 1) || hxIs(l, "adv", 1))
+  if(hxIs(l, "mkpair", 1) || hxIs(l, "mklisten", 1) || hxIs(l, "mkconn", 1) || hxIs(l, "pclose", 1) || hxIs(l, "dial", 1) || hxIs(l, "adv", 1) || hxIs(l, "cfail", 1))
   {
     if(!c14Num(l.tok[1], a)) { printf("bad-op"); hxEndLine(); return true; }
     if(!strcmp(op, "adv")) ipNow += a;
+    else if(!strcmp(op, "cfail"))
+    {
+      if(C14Obj* o = c14Live((int)a, C14_EST))
+        if(o->fd >= 0 && ipNFailConnect < 16)
+        {
+          bool dup = false;
+          for(int i = 0; i < ipNFailConnect; ++i) if(ipFailConnectFd[i] == o->fd) dup = true;
+          if(!dup) ipFailConnectFd[ipNFailConnect++] = o->fd;
+        }
+    }
     else if(!strcmp(op, "mkpair"))
     {
       if(c14Fresh((int)a))
